@@ -1,0 +1,48 @@
+//go:build verif
+
+package utreexo
+
+import "sync/atomic"
+
+// Verification hooks, only compiled in with the "verif" build tag.
+//
+// verifPoint marks a named site inside a MapPollard critical section so that a
+// test harness can suspend the caller there. verifTick marks one iteration of a
+// loop whose termination depends on untrusted input so that a harness can bound it.
+
+type verifHook struct{ fn func(site string) }
+
+var (
+	verifPointHook atomic.Pointer[verifHook]
+	verifTickHook  atomic.Pointer[verifHook]
+)
+
+// VerifSetPoint installs (or with nil removes) the function called by verifPoint.
+func VerifSetPoint(fn func(site string)) {
+	if fn == nil {
+		verifPointHook.Store(nil)
+		return
+	}
+	verifPointHook.Store(&verifHook{fn})
+}
+
+// VerifSetTick installs (or with nil removes) the function called by verifTick.
+func VerifSetTick(fn func(site string)) {
+	if fn == nil {
+		verifTickHook.Store(nil)
+		return
+	}
+	verifTickHook.Store(&verifHook{fn})
+}
+
+func verifPoint(site string) {
+	if h := verifPointHook.Load(); h != nil {
+		h.fn(site)
+	}
+}
+
+func verifTick(site string) {
+	if h := verifTickHook.Load(); h != nil {
+		h.fn(site)
+	}
+}
